@@ -107,16 +107,16 @@ Theorem C04_normalize_matrix_6_cols_reproduces : forall (i : nat) (c0 c1 : R3), 
 Proof. exact normalize_matrix_6_cols. Qed.
 Print Assumptions C04_normalize_matrix_6_cols_reproduces.
 
-(* one unit row (at i) or column, different from (-1,0,0) *)
+(* one unit row (at i) or column: any direction, (-1,0,0) included (repaired in 9a17f3b) *)
 Theorem C04_normalize_matrix_3_reproduces : forall (i : nat) (r : R3), (i < 3)%nat ->
-  norm2 r = 1 -> vx r <> -1 ->
+  norm2 r = 1 ->
   let pat := place3 i (somev r) none3 none3 in
   exists b, normalize_matrix RS (mlist pat) = Ok (mlist b) /\ rotation b /\ agrees pat b.
 Proof. exact normalize_matrix_3_rows. Qed.
 Print Assumptions C04_normalize_matrix_3_reproduces.
 
 Theorem C04_normalize_matrix_3_cols_reproduces : forall (i : nat) (c : R3), (i < 3)%nat ->
-  norm2 c = 1 -> vx c <> -1 ->
+  norm2 c = 1 ->
   let pat := transpose (place3 i (somev c) none3 none3) in
   exists b, normalize_matrix RS (mlist pat) = Ok (mlist b) /\ rotation b /\ agrees pat b.
 Proof. exact normalize_matrix_3_cols. Qed.
@@ -131,13 +131,6 @@ Theorem C04_normalize_matrix_5_reproduces : forall (ir ic : nat) (row col : R3),
             agrees (pat5 ir ic row col) b.
 Proof. exact normalize_matrix_5. Qed.
 Print Assumptions C04_normalize_matrix_5_reproduces.
-
-(* genuine defect (open finding matrix3_row_minus_ex): the guard vx r <> -1 cannot be dropped *)
-Theorem C04_matrix3_row_minus_ex_refuted :
-  exists r : R3, norm2 r = 1 /\
-    normalize_matrix RS (mlist (place3 0 (somev r) none3 none3)) = Err EZeroDiv.
-Proof. exact matrix3_row_minus_ex_refuted. Qed.
-Print Assumptions C04_matrix3_row_minus_ex_refuted.
 
 (* MCNP's internal tweak leaves an orthonormal matrix (proper or not) alone;
    clip_ok: entries are 0 or at least 1e-10 in magnitude *)
@@ -213,14 +206,18 @@ Theorem C04_implicit_surface_value : forall cells surfs (id : Z) tr ss,
 Proof. exact implicit_surface_value. Qed.
 Print Assumptions C04_implicit_surface_value.
 
-(* ---------- genuine defect: SQ under a transformation (open finding) ---------- *)
-Theorem C04_sq_under_transformation_refuted :
-  exists (s : msurf R) (o : R3) (b : M3 R) (p' : R3) c,
-    mk s = KSQ /\ rows_orthonormal b /\
-    tr_convert RS (vlist o ++ mlist b) s = Ok [(c, 1%Z)] /\
-    msense s p' < 0 /\ 0 < t4val c (to_main o b p').
-Proof. exact sq_under_transformation_refuted. Qed.
-Print Assumptions C04_sq_under_transformation_refuted.
+(* ---------- SQ (DESIGN §8 #19, repaired in 5f0340e) ---------- *)
+(* [sq_sign q] = -1 when the SQ function is positive at its own (x, y, z), else 1:
+   the sign rule of sq_to_gq.  Untransformed and transformed SQ surfaces are QUADs
+   with the same rule: value = sq_sign * SQ function at the (back-transformed) point *)
+Theorem C04_frame_transform_sq : forall (q : list R) (o : R3) (b : M3 R) pt u nap (p' : R3),
+  List.length q = 10%nat -> rows_orthonormal b ->
+  let s := mkMS KSQ pt u q nap in
+  (exists c0, convert RS s = Ok [(c0, 1%Z)] /\ t4val c0 p' = sq_sign q * msense s p') /\
+  (exists c, tr_convert RS (vlist o ++ mlist b) s = Ok [(c, 1%Z)] /\
+             t4val c (to_main o b p') = sq_sign q * msense s p').
+Proof. exact frame_transform_sq. Qed.
+Print Assumptions C04_frame_transform_sq.
 
 (* non-vacuity: the quarter turn about z used by the corpus deck
    TRCL=(1 0 0  0 1 0  -1 0 0  0 0 1) satisfies every hypothesis on B, and moves
